@@ -139,6 +139,7 @@ func assembleCoff(c *CoffCase) (obj, flat []byte, skip string) {
 	// baseline: directives only (they print content-free warnings); GLOBAL of an undefined name warns by design
 	bc := *c
 	bc.Stmts, bc.Labels, bc.Before, bc.After, bc.Externs, bc.EndLabels = nil, nil, nil, nil, nil, nil
+	bc.SectionAt = 0 // (the directive would otherwise sit behind statements the baseline does not have)
 	base := asm.Baseline(bc.source(true))
 	var extra []string
 	for _, d := range asm.ExtraDiags(r, base) {
